@@ -91,6 +91,19 @@ theorem Conf.bump {A : Aff} {t0 : Tree} {binds : Array Binding} (hs : Conf A t0 
   · simp only [hij, if_false] at hx
     exact hs j x hx e he
 
+theorem Conf.fired {A : Aff} {t0 : Tree} {binds : Array Binding} (hs : Conf A t0 binds) {i : Nat} {b : Binding}
+    (h : binds[i]? = some b) : Conf A t0 (binds.setIfInBounds i b.fired) := by
+  intro j x hx e he
+  rw [Array.getElem?_setIfInBounds] at hx
+  by_cases hij : i = j
+  · subst hij
+    simp only [if_true] at hx
+    split at hx
+    · cases hx; exact hs i b h e he
+    · cases hx
+  · simp only [hij, if_false] at hx
+    exact hs j x hx e he
+
 theorem Sim.back {A : Aff} {t0 t : Tree} (h : Sim A t0 t) {x : WinTree.Id} {w : Win} (hw : t.wins[x]? = some w) :
     ∃ w0, t0.wins[x]? = some w0 := by
   have hlt : x < t.wins.size := (Array.getElem?_eq_some_iff.1 hw).1
@@ -198,12 +211,15 @@ theorem DInv.bindings {A : Aff} {t0 : Tree} {held : List WinTree.Id} (hi0 : TInv
     | none => simp only [hb] at hr; exact ih _ _ _ h hr
     | some b =>
       simp only [hb] at hr
+      by_cases hg : b.gone = true
+      · simp only [hg, if_true] at hr; exact ih _ _ _ h hr
+      simp only [hg, Bool.false_eq_true, if_false] at hr
       obtain ⟨st1, h1, hr⟩ := res_bind_eq_ok.1 hr
-      have d0 : DInv A t0 held (({ st with binds := st.binds.setIfInBounds bi { b with count := b.count + 1 } } : St).say
+      have d0 : DInv A t0 held (({ st with binds := st.binds.setIfInBounds bi b.fired } : St).say
           (.call kind win b.idx (entryIndex b) b.entry.ret ev)) :=
         ⟨⟨⟨h.good.1.tree, h.good.1.drag, h.good.1.size, h.good.1.rc, h.good.1.leaf, h.good.1.held, h.good.1.root, h.good.1.pos⟩,
-          tableOK_all _⟩, h.sim, h.conf.bump hb _, h.own⟩
-      have o0 : Off st (({ st with binds := st.binds.setIfInBounds bi { b with count := b.count + 1 } } : St).say
+          tableOK_all _⟩, h.sim, h.conf.fired hb, h.own⟩
+      have o0 : Off st (({ st with binds := st.binds.setIfInBounds bi b.fired } : St).say
           (.call kind win b.idx (entryIndex b) b.entry.ret ev)) [] :=
         Off.of_ext ((Ext.of_log (st' := { st with binds := _ }) rfl).trans (Ext.say _ trivial))
       obtain ⟨d1, o1⟩ := DInv.actions hi0 _ _ _ d0 (h.conf.entry hb) h1
